@@ -311,6 +311,48 @@ def export_scripts(r, path, shuffle_seed=None, limit=None, first_sid=1):
     return m
 
 
+def repo_tests_traced(work):
+    """The repository's own order tests, run with the hooks on (VERIF_TRACE), validated by the loop-only
+    conformance spec SpecL (neighbour calls and events are unobserved there: composed as silent steps)."""
+    raw = os.path.join(work, "repotests.raw.ndjson")
+    env = dict(vlib.GOENV, VERIF_TRACE=raw)
+    rc, out = vlib.run(["go", "test", "-tags", "verif", "-count=1", "./provider/bidengine/", "-run", "Test_"],
+                       cwd=vlib.REPO, env=env, timeout=1500)
+    if rc != 0:
+        raise vlib.Inconclusive("the repository's bidengine tests fail with the hooks on:\n" + out[-3000:])
+    by, order = {}, []
+    if os.path.exists(raw):
+        for l in open(raw):
+            o = json.loads(l)
+            if o.get("component") != "bidengine.order":
+                continue
+            if o["id"] not in by:
+                by[o["id"]] = []
+                order.append(o["id"])
+            d = {"e": o["event"]}
+            d.update(o.get("kv") or {})
+            by[o["id"]].append(d)
+    conv = os.path.join(work, "repotests.ndjson")
+    n = nlines = 0
+    with open(conv, "w") as fh:
+        for i, oid in enumerate(order):
+            ls = by[oid]
+            if not ls or ls[0]["e"] != "select":
+                continue
+            rows = [{"e": "begin", "mode": "catchup" if ls[0].get("sg") else "fresh", "tcfg": True, "max": MAXPRICE}] + ls
+            for r in rows:
+                r["sid"] = i + 1
+                fh.write(json.dumps(r) + "\n")
+            n += 1
+            nlines += len(rows)
+    if n == 0:
+        raise vlib.Inconclusive("the repository's bidengine tests produced no order monitor trace (hooks missing?)")
+    r = vlib.tlc(SPEC, "BidEngineTrace", "BidEngineTraceL.cfg", workers=4, timeout=1500, copy_files={"trace.ndjson": conv})
+    if r.kind == "error" or (not r.ok and r.violated != "LNotAtEnd"):
+        raise vlib.Inconclusive("loop-only conformance run of TLC failed (%s %s)\n%s" % (r.kind, r.violated, (r.error or r.out[-2000:])))
+    return {"executions": n, "lines": nlines, "accepted": r.violated == "LNotAtEnd", "tlc_distinct_states": r.distinct}
+
+
 def classes(res):
     """distinct (exit case, unconsumed-at-exit set, calls made by the exit path, mode) classes among executions"""
     cl = set()
@@ -412,6 +454,9 @@ def run(pid, tier, seed, replay):
             drift_steps += 1
             print("DRIFT property=%s %s: execution %d left its script: %s" % (pid, res["what"], o["sid"], o.get("detail")),
                   file=sys.stderr, flush=True)
+        for o in res["summ"]["outcomes"]:
+            for n in (o.get("notes") or [])[:3]:
+                print("DRIFT property=%s %s: execution %d: %s" % (pid, res["what"], o["sid"], n), file=sys.stderr, flush=True)
         if res["unchecked"]:
             vlib.log("[C13] %s: %d execution(s) not conformance-checked after %d drifting ones" % (res["what"], res["unchecked"], len(res["drift"])))
         stuck += [(res["what"], o) for o in res["stuck"]]
@@ -422,6 +467,15 @@ def run(pid, tier, seed, replay):
         vlib.log("[C13] %s: %d executions, %d lines, %d violating, %d conformant, %d drifting" % (
             res["what"], len(res["order"]), res["summ"]["lines"], sum(1 for v in res["verdicts"] if not v["ok"]),
             res["accepted"], len(res["drift"]) + len(res["hdrift"])))
+
+    repo = None
+    if thorough:
+        repo = repo_tests_traced(work)
+        vlib.log("[C13] repository's own order tests traced through the hooks: %r" % repo)
+        if not repo["accepted"]:
+            drift_steps += 1
+            print("DRIFT property=%s the hook lines recorded from the repository's own bidengine tests are not explained by the model" % pid,
+                  file=sys.stderr, flush=True)
 
     st = selftest(results[0])
     if not st["ok"]:
@@ -449,6 +503,7 @@ def run(pid, tier, seed, replay):
         "exhaustive_note": "every terminated behaviour of the forced-schedule model within the stated constants was replayed on the real code; simulation and the random driver are samples",
         "drift_steps": drift_steps,
         "binding_selftest": st,
+        "repo_tests_traced": repo if repo else "thorough tier only",
         "seeds": {"VERIF_SEED": seed},
     }
     assumptions = [
